@@ -13,7 +13,7 @@
 //!   immediately before the input sequence, element 1 the one before that, and so on.
 //! * `input` of rules / `components` of ligatures start at the SECOND glyph (the first one is
 //!   given by the coverage / class index).
-//! * No device tables, no anchors of format 2/3, no FeatureVariations, no feature params.
+//! * Device tables only in value records (hinting, delta format 3; see DeviceSpec), no anchors of format 2/3, no FeatureVariations, no feature params.
 
 pub mod aat;
 pub mod coq;
@@ -60,6 +60,8 @@ pub struct FontSpec {
     /// OpenType 'kern' version 0 with format 0 subtables.
     pub kern: Option<Vec<KernSubtable>>,
     pub morx: Option<Morx>,
+    /// AAT feature name table ('feat'); not part of the Coq `font` term (printed separately, see coq.rs).
+    pub feat: Option<Feat>,
     /// false: 'post' version 3.0 (no names); true: 'post' version 2.0 with names ".notdef", "g1", "g2", ...
     pub post_names: bool,
 }
@@ -369,22 +371,39 @@ pub struct ValueRecord {
     pub y_placement: i16,
     pub x_advance: i16,
     pub y_advance: i16,
+    /// device tables for x_placement, y_placement, x_advance, y_advance (not mirrored in the Coq font term:
+    /// only generators of model-free invariant checks set them)
+    pub devices: [Option<DeviceSpec>; 4],
+}
+
+/// A hinting Device table (delta format 3: one signed byte per ppem size) with the same delta at every size
+/// of [start_size, end_size].
+#[derive(Clone, Copy, Debug, Default, PartialEq, Eq)]
+pub struct DeviceSpec {
+    pub start_size: u16,
+    pub end_size: u16,
+    pub delta: i8,
 }
 
 impl ValueRecord {
-    pub const ZERO: ValueRecord = ValueRecord { x_placement: 0, y_placement: 0, x_advance: 0, y_advance: 0 };
+    pub const ZERO: ValueRecord = ValueRecord { x_placement: 0, y_placement: 0, x_advance: 0, y_advance: 0, devices: [None; 4] };
     pub fn xadv(v: i16) -> Self {
         ValueRecord { x_advance: v, ..Self::ZERO }
     }
     pub fn new(x_placement: i16, y_placement: i16, x_advance: i16, y_advance: i16) -> Self {
-        ValueRecord { x_placement, y_placement, x_advance, y_advance }
+        ValueRecord { x_placement, y_placement, x_advance, y_advance, devices: [None; 4] }
     }
-    /// Value-format bits of the non-zero fields (XPlacement 1, YPlacement 2, XAdvance 4, YAdvance 8).
+    /// Value-format bits of the non-zero fields (XPlacement 1, YPlacement 2, XAdvance 4, YAdvance 8) and of
+    /// the device tables present (XPlaDevice 0x10, YPlaDevice 0x20, XAdvDevice 0x40, YAdvDevice 0x80).
     pub fn nonzero_bits(&self) -> u16 {
         (self.x_placement != 0) as u16
             | ((self.y_placement != 0) as u16) << 1
             | ((self.x_advance != 0) as u16) << 2
             | ((self.y_advance != 0) as u16) << 3
+            | (self.devices[0].is_some() as u16) << 4
+            | (self.devices[1].is_some() as u16) << 5
+            | (self.devices[2].is_some() as u16) << 6
+            | (self.devices[3].is_some() as u16) << 7
     }
 }
 
@@ -401,7 +420,7 @@ pub enum ValueFormat {
 /// The ValueFormat word `build` writes for a set of records under `mode`.
 pub fn value_format_of<'a>(records: impl IntoIterator<Item = &'a ValueRecord>, mode: ValueFormat) -> u16 {
     match mode {
-        ValueFormat::All => 0x000F,
+        ValueFormat::All => records.into_iter().fold(0x000F, |a, r| a | (r.nonzero_bits() & 0x00F0)),
         ValueFormat::NonZero => records.into_iter().fold(0, |a, r| a | r.nonzero_bits()),
     }
 }
@@ -459,6 +478,25 @@ pub struct KernSubtable {
     pub override_: bool,
     /// (left, right, value), sorted by (left, right).
     pub pairs: Vec<(u16, u16, i16)>,
+}
+
+// ---------------------------------------------------------------------------------------------
+// feat
+
+/// AAT 'feat' table.  `names` must be sorted by `feature` (ttf-parser binary-searches it).
+#[derive(Clone, Debug, Default)]
+pub struct Feat {
+    pub names: Vec<FeatName>,
+}
+
+/// One feature name record: feature type, its setting selectors (written in this order), the
+/// exclusive-settings flag (featureFlags 0x8000) and an optional default setting index (0x4000).
+#[derive(Clone, Debug, Default, PartialEq, Eq)]
+pub struct FeatName {
+    pub feature: u16,
+    pub settings: Vec<u16>,
+    pub exclusive: bool,
+    pub default_index: Option<u8>,
 }
 
 // ---------------------------------------------------------------------------------------------
@@ -637,6 +675,7 @@ impl FontSpec {
             gpos: None,
             kern: None,
             morx: None,
+            feat: None,
             post_names: false,
         }
     }
@@ -674,6 +713,11 @@ pub fn check(spec: &FontSpec) -> Vec<String> {
     }
     if spec.hadv.len() != n {
         v.push("hadv.len() != num_glyphs".into());
+    }
+    if let Some(f) = &spec.feat {
+        if !f.names.windows(2).all(|w| w[0].feature < w[1].feature) {
+            v.push("feat.names not strictly sorted by feature type".into());
+        }
     }
     if let Some(vm) = &spec.vmetrics {
         if vm.vadv.len() != n {
